@@ -37,15 +37,45 @@
 (* "snapshot" models what the harness does to keep replaying everything else in spite   *)
 (* of finding D11 (two cache objects on one node do not see each other's later entries):*)
 (* at pickling time the file is byte-copied and the copy is attached to the snapshot.   *)
+(*                                                                                      *)
+(* Generations.  A restored object is an object like any other: it is edited and        *)
+(* pickled again (a worker sends it on, a session saves what it loaded).  `gen` counts  *)
+(* the Pickles of the behaviour.  At Pickle number k+1 (k >= 1) the object restored by  *)
+(* Pickle number k (world "copy") BECOMES the original (its cells move to cell 1) and   *)
+(* the new copy is its projection: SameBehaviour / SameState / CountersByValue /        *)
+(* NoSharing are evaluated between generation k and k+1 for every k < MaxGen.  Between  *)
+(* two Pickles only the restored object acts (<= MaxMid steps).  Generations > 1 are    *)
+(* explored without file-backed caches (ASSUME below).                                  *)
+(*                                                                                      *)
+(* Grammar edits.  The grammar cell holds, for the defaulted input p: whether it has a  *)
+(* default (has) and which (dflt), whether p is required (req), and whether the OTHER   *)
+(* inputs still have the defaults the constructor gave them (rest).  SetDefault,        *)
+(* DelDefault (del defaults[p]), ClearDefaults(h) (all defaults, by defaults.clear() or *)
+(* by assigning an empty mapping), Unrequire (required_names.remove(p)).  The caller of *)
+(* Execute/Linearize supplies x and every other input the grammar holds no default for, *)
+(* except p: when p has no default and is required the call fails (ret.err) and changes *)
+(* nothing; when p has no default and is not required what the body does is class       *)
+(* specific: the call is not enabled.                                                   *)
+(*                                                                                      *)
+(* Methods.  How the object travels does not matter to Project: "dumps", "file"         *)
+(* (to_pickle/from_pickle), "spawn" (through another interpreter and back), "session"   *)
+(* (restored IN another interpreter - another string-hash seed - where it stays: every  *)
+(* later action on that world runs there).                                              *)
 EXTENDS Naturals, Sequences, FiniteSets, TLC
 
 CONSTANTS X,          \* caller-supplied input values, e.g. {1, 2}
           DV,         \* values of the default of the defaulted input, e.g. {0, 1}; 0 = constructor's
           ConfNames,  \* the object/cache configurations explored (one initial state each), see AllConfigs
           HasDefault, \* the class has a defaulted input (SetDefault enabled)
-          MaxPre,     \* actions before Pickle
-          MaxSuf,     \* actions after Pickle
-          Methods,    \* ways of pickling: "dumps", "file" (to_pickle/from_pickle), "spawn" (child process)
+          MaxPre,     \* actions before the first Pickle
+          MaxSuf,     \* actions after the last Pickle
+          MaxGen,     \* Pickles per behaviour (1 = prefix . Pickle . suffix)
+          MaxMid,     \* actions of the restored object between two Pickles
+          Methods,    \* ways of pickling: "dumps", "file" (to_pickle/from_pickle), "spawn", "session" (child process)
+          ActNames,   \* the actions explored (a bound: leaving one out removes behaviours only)
+          LastActNames, \* the actions explored after the last Pickle (a bound)
+          ClearHows,  \* ways of removing all defaults: "clear" (defaults.clear()), "assign" (defaults = {})
+          Resurrect,  \* a grammar restored without defaults takes those of the previous pickle (must be FALSE)
           LastFromNewest, \* the restored cache takes its newest entry as last entry (must be FALSE for the property)
           Shared,     \* attributes the copy shares with the original (must be {} for the property)
           Dropped     \* attributes reset instead of carried over   (must be {} for the property)
@@ -82,20 +112,25 @@ ASSUME /\ Configs # {}
        /\ \A c \in AllConfigs : c.init \in c.kinds /\ c.kinds \subseteq AllKinds /\ (c.stateful => c.kinds = {"none"})
        /\ Shared \subseteq Attrs /\ Dropped \subseteq Attrs
        /\ 0 \in DV /\ 0 \notin X
+       /\ MaxGen \in Nat \ {0} /\ MaxMid \in Nat /\ Resurrect \in BOOLEAN /\ ClearHows # {}
+       /\ (MaxGen > 1 => \A c \in Configs : "hdf" \notin c.kinds)
 
 VARIABLES conf,     \* the configuration of this behaviour (constant along it)
           ref,      \* ref[w][a] \in {1, 2}
           cache,    \* cache[i] = [kind, outs, jacs, hasNew, newest, file, hasLast, last]; last = the entry last
                     \*            WRITTEN (cache.last_entry: what a warm-started process starts from)
           ctr,      \* ctr[i]   = [ne, nl]
-          gram,     \* gram[i]  = [dflt]
+          gram,     \* gram[i]  = [has, dflt, req, rest]
           data,     \* data[i]  = [moment, has, pt, mem]
           sett,     \* sett[i]  \in {0, 1}
           files,    \* files[f] = [outs, jacs, hasNew, newest]   f \in {1, 2}
-          pickled, np, ns,
+          gen,      \* number of Pickles so far
+          np, ns,   \* steps before the first Pickle / since the latest one
+          pg,       \* the grammar value carried by the latest Pickle (recorded only when Resurrect)
           ret       \* what the last call did / returned
 cells == <<cache, ctr, gram, data, sett>>
-vars == <<conf, ref, cells, files, pickled, np, ns, ret>>
+vars == <<conf, ref, cells, files, gen, np, ns, pg, ret>>
+pickled == gen > 0
 Kinds == conf.kinds
 InitKind == conf.init
 FileMode == conf.fileMode
@@ -106,13 +141,13 @@ CallCount == conf.callCount
 NewCache(k, f) == [kind |-> k, outs |-> {}, jacs |-> {}, hasNew |-> FALSE, newest |-> P0,
                    file |-> IF k = "hdf" THEN f ELSE 0, hasLast |-> FALSE, last |-> P0]
 NewCtr  == [ne |-> 0, nl |-> 0]
-NewGram == [dflt |-> 0]
+NewGram == [has |-> TRUE, dflt |-> 0, req |-> TRUE, rest |-> TRUE]
 NewData == [moment |-> "fresh", has |-> FALSE, pt |-> P0, mem |-> <<>>]
 \* the file a world's caches are created on: one file per object, the copy's own one in snapshot mode
 FileOf(w) == IF w = "orig" \/ FileMode = "shared" THEN 1 ELSE 2
 
 NoRet == [w |-> "orig", act |-> "Init", x |-> 0, v |-> 0, k |-> "none", how |-> "",
-          pt |-> P0, mem |-> <<>>, hit |-> FALSE, jhit |-> FALSE, ran |-> FALSE, lin |-> FALSE]
+          pt |-> P0, mem |-> <<>>, hit |-> FALSE, jhit |-> FALSE, ran |-> FALSE, lin |-> FALSE, err |-> FALSE]
 
 -----------------------------------------------------------------------------
 (* The value of a world: its cells and the content of the file its cache is attached to *)
@@ -135,13 +170,23 @@ Act(a, x, v, k) == [act |-> a, x |-> x, v |-> v, k |-> k]
 Acts == {Act("Execute", x, 0, "none") : x \in X} \cup {Act("Linearize", x, 0, "none") : x \in X}
         \cup {Act("SetDefault", 0, v, "none") : v \in DV} \cup {Act("SetSetting", 0, 0, "none")}
         \cup {Act("SetCache", 0, 0, k) : k \in AllKinds} \cup {Act("ClearCache", 0, 0, "none")}
+        \cup {Act("DelDefault", 0, 0, "none"), Act("Unrequire", 0, 0, "none")}
+        \cup {Act("ClearDefaults", 0, 0, h) : h \in ClearHows}
+
+\* the required input p has no value: the call is refused before anything happens
+Missing(W) == ~W.gram.has /\ W.gram.req
 
 Enabled(W, a) ==
-    CASE a.act = "SetDefault" -> HasDefault /\ a.v # W.gram.dflt
-      [] a.act = "SetCache"   -> a.k \in Kinds /\ a.k # W.cache.kind
-      \* HDF5Cache.clear() on a node that was never written raises KeyError (D13, outside this property)
-      [] a.act = "ClearCache" -> W.cache.kind # "none" /\ (W.cache.kind = "hdf" => W.fil.outs # {})
-      [] OTHER -> TRUE
+    /\ a.act \in ActNames
+    /\ CASE a.act = "SetDefault" -> HasDefault /\ (~W.gram.has \/ a.v # W.gram.dflt)
+         [] a.act = "DelDefault" -> HasDefault /\ W.gram.has
+         [] a.act = "ClearDefaults" -> HasDefault /\ (W.gram.has \/ W.gram.rest)
+         [] a.act = "Unrequire"  -> HasDefault /\ W.gram.req
+         [] a.act \in {"Execute", "Linearize"} -> W.gram.has \/ W.gram.req
+         [] a.act = "SetCache"   -> a.k \in Kinds /\ a.k # W.cache.kind
+         \* HDF5Cache.clear() on a node that was never written raises KeyError (D13, outside this property)
+         [] a.act = "ClearCache" -> W.cache.kind # "none" /\ (W.cache.kind = "hdf" => W.fil.outs # {})
+         [] OTHER -> TRUE
 
 \* execute(x): served from the cache when the completed input has outputs there, otherwise the body
 \* runs once, the counter moves and the outputs are stored (a simple cache keeps the latest input only)
@@ -155,7 +200,9 @@ ExecStep(W, x) ==
                  [] OTHER                   -> [outs |-> e.outs \cup {pt}, jacs |-> e.jacs \cup jn,
                                                 hasNew |-> TRUE, newest |-> pt]
         D1  == [W.data EXCEPT !.moment = "executed", !.has = TRUE, !.pt = pt]
-    IN IF hit
+    IN IF Missing(W)
+       THEN [ret |-> [NoRet EXCEPT !.act = "Execute", !.x = x, !.err = TRUE], next |-> W]
+       ELSE IF hit
        THEN [ret |-> [NoRet EXCEPT !.act = "Execute", !.x = x, !.pt = pt, !.mem = W.data.mem, !.hit = TRUE],
              next |-> [W EXCEPT !.data = D1, !.ctr.ne = IF CallCount THEN @ + 1 ELSE @]]
        ELSE [ret |-> [NoRet EXCEPT !.act = "Execute", !.x = x, !.pt = pt, !.mem = W.data.mem, !.ran = TRUE],
@@ -174,15 +221,23 @@ LinStep(W, x) ==
         W2a  == IF W1.cache.kind = "none" THEN W1
                 ELSE PutEnts(W1, [e1 EXCEPT !.jacs = @ \cup {pt}])
         W2   == IF lin THEN Touch(W2a, pt) ELSE W2a   \* the computed Jacobian is written to the entry of pt
-    IN [ret |-> [E.ret EXCEPT !.act = "Linearize", !.jhit = jhit, !.lin = lin],
-        next |-> [W2 EXCEPT !.ctr.nl = IF lin THEN @ + 1 ELSE @, !.data.moment = "linearized"]]
+    IN IF Missing(W)
+       THEN [ret |-> [E.ret EXCEPT !.act = "Linearize"], next |-> W]
+       ELSE [ret |-> [E.ret EXCEPT !.act = "Linearize", !.jhit = jhit, !.lin = lin],
+             next |-> [W2 EXCEPT !.ctr.nl = IF lin THEN @ + 1 ELSE @, !.data.moment = "linearized"]]
 
 \* fc: content of the file a new hdf cache would be attached to
 Do(W, a, f, fc) ==
     CASE a.act = "Execute"    -> ExecStep(W, a.x)
       [] a.act = "Linearize"  -> LinStep(W, a.x)
       [] a.act = "SetDefault" -> [ret |-> [NoRet EXCEPT !.act = "SetDefault", !.v = a.v],
-                                  next |-> [W EXCEPT !.gram.dflt = a.v]]
+                                  next |-> [W EXCEPT !.gram.has = TRUE, !.gram.dflt = a.v]]
+      [] a.act = "DelDefault" -> [ret |-> [NoRet EXCEPT !.act = "DelDefault"],
+                                  next |-> [W EXCEPT !.gram.has = FALSE, !.gram.dflt = 0]]
+      [] a.act = "ClearDefaults" -> [ret |-> [NoRet EXCEPT !.act = "ClearDefaults", !.how = a.k],
+                                     next |-> [W EXCEPT !.gram.has = FALSE, !.gram.dflt = 0, !.gram.rest = FALSE]]
+      [] a.act = "Unrequire"  -> [ret |-> [NoRet EXCEPT !.act = "Unrequire"],
+                                  next |-> [W EXCEPT !.gram.req = FALSE]]
       [] a.act = "SetSetting" -> [ret |-> [NoRet EXCEPT !.act = "SetSetting", !.v = 1 - W.sett],
                                   next |-> [W EXCEPT !.sett = 1 - @]]
       [] a.act = "SetCache"   -> [ret |-> [NoRet EXCEPT !.act = "SetCache", !.k = a.k],
@@ -203,9 +258,13 @@ Init == /\ conf \in Configs
         /\ data = [i \in {1, 2} |-> NewData]
         /\ sett = [i \in {1, 2} |-> 0]
         /\ files = [f \in {1, 2} |-> NoEnts]
-        /\ pickled = FALSE /\ np = 0 /\ ns = 0 /\ ret = NoRet
+        /\ gen = 0 /\ np = 0 /\ ns = 0 /\ pg = NewGram /\ ret = NoRet
 
-Active(w) == IF pickled THEN ns < MaxSuf ELSE (w = "orig" /\ np < MaxPre)
+\* before the first Pickle only the original exists; between two Pickles the restored object is the one
+\* that is used and sent on; after the last Pickle both worlds act
+Active(w) == IF gen = 0 THEN (w = "orig" /\ np < MaxPre)
+             ELSE IF gen < MaxGen THEN (w = "copy" /\ ns < MaxMid)
+             ELSE ns < MaxSuf
 
 Apply(w, a) ==
     LET W == WV(w)
@@ -214,6 +273,7 @@ Apply(w, a) ==
         N == S.next
     IN /\ Active(w)
        /\ Enabled(W, a)
+       /\ (gen = MaxGen => a.act \in LastActNames)
        /\ cache' = [cache EXCEPT ![ref[w].cache] = N.cache]
        /\ ctr'   = [ctr   EXCEPT ![ref[w].ctr]   = N.ctr]
        /\ gram'  = [gram  EXCEPT ![ref[w].gram]  = N.gram]
@@ -222,7 +282,7 @@ Apply(w, a) ==
        /\ files' = IF N.cache.kind = "hdf" THEN [files EXCEPT ![N.cache.file] = N.fil] ELSE files
        /\ ret' = [S.ret EXCEPT !.w = w]
        /\ (IF pickled THEN ns' = ns + 1 /\ np' = np ELSE np' = np + 1 /\ ns' = ns)
-       /\ UNCHANGED <<conf, ref, pickled>>
+       /\ UNCHANGED <<conf, ref, gen, pg>>
 
 \* (the leading conjunct keeps the action's own name in TLC's coverage and edge labels)
 Execute(w, x)    == w \in Worlds /\ Apply(w, Act("Execute", x, 0, "none"))
@@ -231,40 +291,56 @@ SetDefault(w, v) == w \in Worlds /\ Apply(w, Act("SetDefault", 0, v, "none"))
 SetSetting(w)    == w \in Worlds /\ Apply(w, Act("SetSetting", 0, 0, "none"))
 SetCache(w, k)   == w \in Worlds /\ Apply(w, Act("SetCache", 0, 0, k))
 ClearCache(w)    == w \in Worlds /\ Apply(w, Act("ClearCache", 0, 0, "none"))
+DelDefault(w)    == w \in Worlds /\ Apply(w, Act("DelDefault", 0, 0, "none"))
+ClearDefaults(w, h) == w \in Worlds /\ Apply(w, Act("ClearDefaults", 0, 0, h))
+Unrequire(w)     == w \in Worlds /\ Apply(w, Act("Unrequire", 0, 0, "none"))
 
 (* Project: what serialisation must carry over, attribute by attribute, BY VALUE.       *)
 (* The cache of kind hdf carries its attachment (file id), not the entries.             *)
 Carried(a, own, new) == IF a \in Dropped THEN new ELSE own
+\* the world whose object is pickled: the original the first time, then the object restored last
+Src == IF gen = 0 THEN "orig" ELSE "copy"
 Pickle(m) ==
-    /\ ~pickled
-    /\ pickled' = TRUE
+    /\ gen < MaxGen
+    /\ gen' = gen + 1
     /\ ref' = [ref EXCEPT !["copy"] = [a \in Attrs |-> IF a \in Shared THEN 1 ELSE 2]]
-    /\ LET c1 == cache[1]
+    /\ LET c1 == cache[ref[Src].cache]
            snap == FileMode = "snapshot" /\ c1.kind = "hdf"
            e1 == IF c1.kind = "hdf" THEN files[c1.file]
                  ELSE [outs |-> c1.outs, jacs |-> c1.jacs, hasNew |-> c1.hasNew, newest |-> c1.newest]
            c1n == IF LastFromNewest /\ e1.hasNew THEN [c1 EXCEPT !.hasLast = TRUE, !.last = e1.newest] ELSE c1
-       IN /\ cache' = [cache EXCEPT ![2] = Carried("cache", IF snap THEN [c1n EXCEPT !.file = 2] ELSE c1n,
-                                                   NewCache(InitKind, FileOf("copy")))]
+       IN /\ cache' = [i \in {1, 2} |-> IF i = 1 THEN c1
+                                        ELSE Carried("cache", IF snap THEN [c1n EXCEPT !.file = 2] ELSE c1n,
+                                                     NewCache(InitKind, FileOf("copy")))]
           \* the harness byte-copies the object's file (whether or not a cache is attached to it now)
           /\ files' = IF FileMode = "snapshot" THEN [files EXCEPT ![2] = files[1]] ELSE files
-    /\ ctr'  = [ctr  EXCEPT ![2] = Carried("ctr",  ctr[1],  NewCtr)]
-    /\ gram' = [gram EXCEPT ![2] = Carried("gram", gram[1], NewGram)]
-    /\ data' = [data EXCEPT ![2] = Carried("data", data[1], NewData)]
-    /\ sett' = [sett EXCEPT ![2] = Carried("sett", sett[1], 0)]
+    /\ LET g1 == gram[ref[Src].gram]
+           \* (Resurrect: the defect class "a restored grammar without defaults takes those of the pickle it came from")
+           g2 == IF Resurrect /\ gen > 0 /\ ~g1.has /\ ~g1.rest THEN [g1 EXCEPT !.has = pg.has, !.dflt = pg.dflt, !.rest = pg.rest]
+                 ELSE g1
+       IN /\ gram' = [i \in {1, 2} |-> IF i = 1 THEN g1 ELSE Carried("gram", g2, NewGram)]
+          /\ pg' = IF Resurrect THEN g1 ELSE pg
+    /\ ctr'  = [i \in {1, 2} |-> IF i = 1 THEN ctr[ref[Src].ctr]   ELSE Carried("ctr",  ctr[ref[Src].ctr],   NewCtr)]
+    /\ data' = [i \in {1, 2} |-> IF i = 1 THEN data[ref[Src].data] ELSE Carried("data", data[ref[Src].data], NewData)]
+    /\ sett' = [i \in {1, 2} |-> IF i = 1 THEN sett[ref[Src].sett] ELSE Carried("sett", sett[ref[Src].sett], 0)]
+    /\ ns' = 0
     /\ ret' = [NoRet EXCEPT !.act = "Pickle", !.how = m]
-    /\ UNCHANGED <<conf, np, ns>>
+    /\ UNCHANGED <<conf, np>>
 
 Next == \/ \E w \in Worlds, x \in X : Execute(w, x) \/ Linearize(w, x)
         \/ \E w \in Worlds, v \in DV : SetDefault(w, v)
         \/ \E w \in Worlds : SetSetting(w) \/ ClearCache(w)
         \/ \E w \in Worlds, k \in AllKinds : SetCache(w, k)
+        \/ \E w \in Worlds : DelDefault(w) \/ Unrequire(w)
+        \/ \E w \in Worlds, h \in ClearHows : ClearDefaults(w, h)
         \/ \E m \in Methods : Pickle(m)
 Spec == Init /\ [][Next]_vars
 
 -----------------------------------------------------------------------------
 (* Invariants *)
+MaxSteps == MaxPre + (MaxGen - 1) * MaxMid + 2 * MaxSuf
 TypeOK == /\ conf \in Configs
+          /\ gen \in 0..MaxGen /\ np \in 0..MaxPre /\ ns \in 0..(MaxMid + 2 * MaxSuf)
           /\ ref \in [Worlds -> [Attrs -> {1, 2}]]
           /\ \A i \in {1, 2} :
                /\ cache[i].kind \in Kinds /\ cache[i].jacs \subseteq cache[i].outs
@@ -273,8 +349,10 @@ TypeOK == /\ conf \in Configs
                /\ cache[i].hasLast \in BOOLEAN /\ cache[i].last \in Points \cup {P0}
                /\ (cache[i].kind \in {"simple", "mem"} => /\ cache[i].hasLast = (cache[i].outs # {})
                                                          /\ (cache[i].hasLast => cache[i].last \in cache[i].outs))
-               /\ ctr[i].ne \in 0..(MaxPre + 2 * MaxSuf) /\ ctr[i].nl \in 0..(MaxPre + 2 * MaxSuf)
+               /\ ctr[i].ne \in 0..MaxSteps /\ ctr[i].nl \in 0..MaxSteps
                /\ gram[i].dflt \in DV /\ sett[i] \in {0, 1}
+               /\ gram[i].has \in BOOLEAN /\ gram[i].req \in BOOLEAN /\ gram[i].rest \in BOOLEAN
+               /\ (~gram[i].has => gram[i].dflt = 0)
                /\ data[i].moment \in {"fresh", "executed", "linearized"}
                /\ (data[i].has <=> data[i].moment # "fresh")
                /\ files[i].jacs \subseteq files[i].outs /\ files[i].outs \subseteq Points
@@ -284,7 +362,7 @@ NormW(W) == [W EXCEPT !.cache.file = 0]
 NormS(S) == [ret |-> S.ret, next |-> NormW(S.next)]
 StepOf(w, a) == LET f == FileOf(w) IN NormS(Do(WV(w), a, f, files[f]))
 
-(* One-step bisimulation right after Pickle, at every depth of the prefix: every action *)
+(* One-step bisimulation right after EVERY Pickle (generation k vs k+1), at every depth: every action *)
 (* is enabled in the copy iff it is in the original, returns the same and leads to the  *)
 (* same abstract state.                                                                 *)
 SameBehaviour ==
@@ -310,7 +388,7 @@ NoSharing == pickled => \A a \in Attrs : ref["copy"][a] # ref["orig"][a]
 \* ... so that an action on one world never changes the in-memory state of the other
 Mem(w) == [cache |-> cache[ref[w].cache], ctr |-> ctr[ref[w].ctr], gram |-> gram[ref[w].gram],
            data |-> data[ref[w].data], sett |-> sett[ref[w].sett]]
-NoSharingStep == (pickled /\ pickled') => \A o \in Worlds : (ret'.w = Other(o) => Mem(o)' = Mem(o))
+NoSharingStep == (gen > 0 /\ gen' = gen) => \A o \in Worlds : (ret'.w = Other(o) => Mem(o)' = Mem(o))
 NoSharingProp == [][NoSharingStep]_vars
 
 \* a file-backed cache stays attached to its file: same file right after Pickle (shared mode), and the
